@@ -78,11 +78,13 @@ EXTRA = {
 }
 
 TEXT_FAULTS = ["", " ", "abc", "**x", "***d", ":t", "::x", "k:", "a:b:", "1", "-", "nan", "2020-13-45", "2020-01-02T00:00:00Z",
-               "*", "**", "****", "1e400", "x;y"]
+               "*", "**", "****", "1e400", "x;y",
+               # an unfilled template placeholder / format directive is a realistic mistyped cell, name or table name
+               "{mass}", "{}", "{0}", "{", "}", "${mass}", "%s", "%(x)s", "\\", "**{t}", "**t{0}*", "{a}:"]
 NATIVE_FAULTS = [None, 0, 5, -1, 1.5, float("nan"), float("inf"), True, False, datetime.datetime(2020, 1, 2),
                  datetime.datetime(2020, 1, 2, tzinfo=datetime.timezone.utc), datetime.date(2020, 1, 2),
                  datetime.time(1, 2), datetime.timedelta(hours=1, minutes=30), 2 ** 1024, -2 ** 1024, 10 ** 20]
-NAMES = ["a", "b", "c", "é", "x1", "T_2", "col", "dd", "q", "Z"]
+NAMES = ["a", "b", "c", "é", "x1", "T_2", "col", "dd", "q", "Z", "m{x}", "{}", "p%s"]
 LEGAL = {
     "text": ["a", " a ", "-", "nan", "None", "1.5", "é µ", "TRUE", "k", "b c"],
     "onoff": ["0", "1", "true", "false", "True", " tRuE "],
@@ -130,7 +132,8 @@ def gen_base(rng):
             names = pool[:n_col]
             units = [rng.choice(UNITS[k]) for k in kinds]
             data = [[rng.choice(LEGAL[k]) for k in kinds] for _ in range(n_row)]
-            rows.append([f"**t{t_idx}" + ("*" if transposed else "")] + ([""] if rng.random() < 0.4 else []))
+            tname = f"t{t_idx}" + rng.choice(["", "", "", "{0}", "{n}", "%d"])
+            rows.append([f"**{tname}" + ("*" if transposed else "")] + ([""] if rng.random() < 0.4 else []))
             rows.append([rng.choice(["all", "a b", "your_farm"])])
             if transposed:
                 for j in range(n_col):
